@@ -128,10 +128,13 @@ def run(ctx):
     rc_all = 0
     impl_lines = []
     rc, lines, err = ctx.run_driver(exe, ["seq"], seqs, timeout=1800)
+    progressed = len(lines) > 0
     while len(lines) < len(seqs):
-        lines.append("CRASH rc=%s" % rc)
+        if not (rc == -9 and progressed):        # rc -9 = our own batch time-out (loaded machine): the case in progress did not crash, run the rest again
+            lines.append("CRASH rc=%s" % rc)
         if len(lines) < len(seqs):
             rc, more, err = ctx.run_driver(exe, ["seq"], seqs[len(lines):], timeout=1800)
+            progressed = len(more) > 0
             lines += more
     model = ctx.modelrun("mseq", seqs)
     llo_cases, llo_expect = [], []
